@@ -24,6 +24,8 @@ UNIVERSE = [
     ABSENT, None, True, False, 0, 1, 2, -1, 0.0, 1.0, 1.5, "", "0", "1", "a", "b", "ab", "é", "true",
     [], [1], [True], [1.0], [0], [False], [[1]], [[True]], [1, 2], [2, 1], ["a"],
     {}, {"a": 1}, {"a": True}, {"a": 1.0}, {"a": 1, "b": 2}, {"b": 2, "a": 1}, {"a": [1]}, {"a": [True]}, {"a": None},
+    # objects that differ only in WHICH member holds null / in a missing member beside a null one
+    {"b": None}, {"a": None, "n": 1}, {"n": 1, "m": None}, {"a": 1, "b": None}, {"a": 1, "c": None}, [{"k": None, "n": 1}], [{"n": 1, "m": None}],
 ]
 OPS = ["==", "!=", "<", "<=", ">", ">="]
 
